@@ -136,3 +136,37 @@ def add_var(ds: XDataset, name, dims, arr, attrs=None, encoding=None, coord=Fals
     if coord:
         ds._coord_names.add(name)
     return ds
+
+
+# ---------------------------------------------------------------------------
+# frame conditions
+
+
+def snapshot(ds: XDataset):
+    """Remember a dataset as it is now (variable objects, element functions, attributes, encodings, order) for `check_unmodified`."""
+    return {'vars': {k: (v, v.dims, v.arr, v.arr.fn, v.arr.mask_fn, dict(v.attrs), dict(v.encoding)) for k, v in ds._vars.items()},
+            'order': list(ds._vars), 'coords': set(ds._coord_names), 'attrs': dict(ds.attrs)}
+
+
+def check_unmodified(c: Ctx, ds: XDataset, snap, what='the input dataset'):
+    """Frame obligation: an operation that returns a new dataset leaves its argument as it was -- same variables in the same order, same
+    dimensions, attributes and encodings, and (at a Skolem index per variable) the same values."""
+    c.check(f'{what} keeps its variables, their order, its coordinates and global attributes',
+            list(ds._vars) == snap['order'] and set(ds._coord_names) == snap['coords'] and ds.attrs == snap['attrs'])
+    for k, (v0, dims, arr, f, mf, attrs, enc) in snap['vars'].items():
+        v = ds._vars.get(k)
+        if v is None:
+            continue
+        ok = v.dims == dims and v.attrs == attrs and v.encoding == enc
+        idx = []
+        for d, n in enumerate(arr.shape):
+            q = c.fresh_int(f'frame_{k}_{d}')
+            c.assume(q >= 0)
+            c.assume(q < n)
+            idx.append(q)
+        idx = tuple(idx)
+        now, was = v.arr.fn(idx), f(idx)
+        same = now.same_bits(was) if isinstance(now, SFloat) else s_eq(now, was)
+        if mf is not None and v.arr.mask_fn is not None:
+            same = s_and(same, s_eq(truthy(v.arr.mask_fn(idx)), truthy(mf(idx))))
+        c.check(f'{what}: variable {k!r} is not modified (dimensions, attributes, encoding, values)', s_and(ok, same))
